@@ -27,7 +27,7 @@ RULE = ("case = (serde configuration, value description). Values: a recursive Hy
         "(str(x).encode('ascii')); payload is bytes or ASCII str; 0 <= flags < 2^16; compressed flag set iff the "
         "stored form is the codec's output for the inner payload and decompresses to it; stored form never longer "
         "than the inner payload; min_compress_len=0 never compresses; a PickleSerde(p) pickle uses no opcode newer than protocol p. Non-trivial: the value is not plain bytes/str, "
-        "or its inner payload is longer than the threshold. Graph-shaped values (a list / dict that contains itself, a child pointing back at its parent, one object reached twice) are part of the grid and compared as graphs. Sequences: several values through ONE serializer object (also the module-level pickle_serde / compressed_serde singletons), first one after the other and then all serialized before any is deserialized; the sequences contain 'twins' - values of different types whose serialized payload is byte-identical (a str and its bytes, an int and its digits, an object and its own pickle kept as bytes) - in every order, at sizes around every threshold.")
+        "or its inner payload is longer than the threshold. Graph-shaped values (a list / dict that contains itself, a child pointing back at its parent, one object reached twice) are part of the grid and compared as graphs. Sequences: several values through ONE serializer object (also the module-level pickle_serde / compressed_serde singletons), first one after the other and then all serialized before any is deserialized; the sequences contain 'twins' - values of different types whose serialized payload is byte-identical (a str and its bytes, an int and its digits, an object and its own pickle kept as bytes) - in every order, at sizes around every threshold; and values that cannot be pickled (a lambda after 0 ... 300 000 bytes of picklable members), whose serialization fails part-way, followed by ordinary values through the same object.")
 MANIFEST = {
     "category": "exploration",
     "technique": "Hypothesis recursive value generation + enumerated grid of (leaf kind x serde configuration x threshold-straddling sizes); round-trip oracle through the client's own wire encoding, plus flag/size invariants for the compressed serializer",
@@ -111,6 +111,10 @@ def build(d):
         return {build(k): build(v) for k, v in d[1]}
     if t == "bytearray":
         return bytearray(d[1])
+    if t == "unpicklable":
+        # a container whose LAST member cannot be pickled (a lambda), after d[1] bytes of picklable members: serializing it
+        # fails part-way - outside the domain itself, but the values that come after it through the same serializer are not
+        return [b"u" * d[1], {"k": "v" * 50}, lambda: None]
     if t == "packed":
         # bytes that the application compressed (or pickled) itself: a complete zlib / bz2 / lzma / gzip stream or a pickle,
         # optionally followed by more bytes - to the cache it is just bytes
@@ -220,9 +224,21 @@ def check_sequence(case):
     sd = make_serde(cfg)
     vals = [build(d) for d in descs]
     nt, labels = False, set()
-    for v in vals:
-        a, b = _check_one(sd, cfg, v, " (value %d of the sequence %s through one serializer object)" % (vals.index(v), _short(vals)))
+    # values that cannot be serialized at all fail (with whatever pickle raises) and are then left out: what matters is that
+    # the serializer object is none the worse for it
+    ok_vals = []
+    for d, v in zip(descs, vals):
+        if d[0] == "unpicklable":
+            for _ in range(2):
+                try:
+                    sd.serialize("key", v)
+                except Exception:  # noqa: BLE001
+                    labels.add("after-a-failed-serialize")
+            continue
+        ok_vals.append(v)
+        a, b = _check_one(sd, cfg, v, " (value %d of the sequence %s through one serializer object)" % (len(ok_vals) - 1, _short([x for x in ok_vals])))
         nt, labels = nt or a, labels | set(b)
+    vals = ok_vals
     stored = [sd.serialize("key", v) for v in vals]
     for v, (pl, fl) in zip(vals, stored):
         back = sd.deserialize("key", wire(pl), fl)
@@ -410,6 +426,10 @@ def sequence_cases(tier, seed):
             fams.append([obj, ("payload-of", obj, p)])
             fams.append([("bool", True), ("payload-of", ("bool", True), p), ("int", 1)])
     fams.append([("int", 1), ("bool", True), ("bytes", b"1"), ("str", "1")])
+    # a serialization that fails part-way (after 0 / 100 / 70 000 / 300 000 bytes of pickle output), then ordinary values
+    for n in (0, 100, 70000, 300000):
+        fams.append([("unpicklable", n), ("list", [("dict", [[("str", "id"), ("int", 1)]]), ("dict", [[("str", "id"), ("int", 2)]])]), ("str", "x" * 20), ("bytes", b"after")])
+        fams.append([("list", [("int", 1)]), ("unpicklable", n), ("shared", ("list", [("int", 1), ("int", 2)])), ("int", 7)])
     fams.append([("none",), ("bytes", b""), ("str", "")])
     for c in configs:
         for fam in fams:
